@@ -67,7 +67,7 @@ func LoadProgram(repo string, overlay map[string][]byte) (*Program, error) {
 		BuildFlags: []string{"-tags=verif"},
 		Overlay:    overlay,
 	}
-	pkgs, err := packages.Load(cfg, "./pkg/...", "github.com/sdcio/sdc-protos/sdcpb")
+	pkgs, err := packages.Load(cfg, "./pkg/...", "github.com/sdcio/sdc-protos/sdcpb", "github.com/openconfig/gnmi/proto/gnmi")
 	if err != nil {
 		return nil, err
 	}
